@@ -288,8 +288,9 @@ ExDelete == /\ ex[1] = "delivered"
             /\ UNCHANGED <<callerVars, gen, incErr, rd, rdGen, rdMsg, execQ, mainpc, rc, readErrCh, stopped, exited, chanVars, netVars, srvVars>>
 
 (* ================================ client buffer goroutine / consumer ================================ *)
-\* the consumer takes the next buffered value
-BufDeliver(k) == /\ sinkSt[k] \in {"open", "closed"} /\ Len(sinkQ[k]) > 0 /\ ~cancelled[k]
+\* the consumer takes the next buffered value (also after the subscription context was cancelled: the buffer goroutine's select
+\* may still pick the send while BufCtxClose has not happened)
+BufDeliver(k) == /\ sinkSt[k] \in {"open", "closed"} /\ Len(sinkQ[k]) > 0
                  /\ recv' = [recv EXCEPT ![k] = Append(@, Head(sinkQ[k]))] /\ sinkQ' = [sinkQ EXCEPT ![k] = Tail(@)]
                  /\ UNCHANGED <<callerVars, connVars, chanH, sinkSt, netVars, srvVars>>
 \* incoming closed and drained: ch.Close()
